@@ -1887,7 +1887,13 @@ def obs_mps_full(p):
         except Exception:
             pass
         return Hist.obs_arr(B)
-    return dict(B=[tensor(B) for B in p._B], S=[arr(x) for x in p._S], form=[tuple(f) if f is not None else None for f in p.form],
+    try:
+        qtot = [int(x) for x in p.get_total_charge()]
+    except Exception as e:
+        qtot = type(e).__name__
+    # identities: a function that is not in place must not even replace the stored tensor / singular-value objects
+    ids = ([id(B) for B in p._B], [id(x) for x in p._S], id(p._B), id(p._S))
+    return dict(ids=ids, total_charge=qtot, B=[tensor(B) for B in p._B], S=[arr(x) for x in p._S], form=[tuple(f) if f is not None else None for f in p.form],
                 norm=repr(round(float(np.real(p.norm)), 10)), bc=p.bc, L=p.L, sites=[id(x) for x in p.sites], grouped=p.grouped,
                 chi=[int(c) for c in p.chi], dtype=str(p.dtype))
 
@@ -2274,6 +2280,75 @@ def run_net(case, npc, cy):
         inplace(q, dkind)
         if rng.random() < 0.4:
             observers(q)
+
+    # ---------------- two-operand functions on MPS whose total charge is gauged differently / in different sectors
+    def pair_functions(a, b, tag):
+        fs = [('overlap', lambda: a.overlap(b)), ('overlap.rev', lambda: b.overlap(a)),
+              ('add', lambda: a.add(b, 0.6, 0.8)), ('add.rev', lambda: b.add(a, 0.6, 0.8)),
+              ('MPSEnvironment', lambda: MPSEnvironment(a, b)),
+              ('MPSEnvironment.use', lambda: (lambda e: (e.get_LP(a.L - 1, store=True), e.get_RP(0, store=True), e.full_contraction(0),
+                                                         e.expectation_value('Sz')))(MPSEnvironment(a, b))),
+              ('MPSEnvironment.rev', lambda: MPSEnvironment(b, a).full_contraction(0)),
+              ('MPOEnvironment', lambda: MPOEnvironment(a, Hm, b).full_contraction(0) if a.L == Hm.L and a.finite else None),
+              ('TransferMatrix', lambda: TransferMatrix(a, b, charge_sector=None, form=None) if not a.finite else None),
+              ('expectation_value.bra', lambda: MPSEnvironment(a, b).expectation_value_term([('Sz', 0)])),
+              ('correlation_function.bra', lambda: MPSEnvironment(a, b).correlation_function('Sz', 'Sz')),
+              ('apply_naively', lambda: Hm.apply_naively(b.copy()) if b.L == Hm.L and b.grouped == 1 else None)]
+        rng.shuffle(fs)
+        for name, f in fs:
+            try:
+                f()
+            except Exception:
+                if not tenpy_error():
+                    raise
+                ops_done.append(f'net.rejected.pair.{name}')
+            else:
+                ops_done.append(f'net.pair.{name}')
+            n0 = len(oracle)
+            check(f'pair.{tag}.{name}')
+            for k in range(n0, len(oracle)):
+                oracle[k] = (f'c03.net.pair.{name}.operand-changed', oracle[k][1])
+
+    if conserve is not None and bc != 'infinite':
+        try:
+            up = ['up'] * L
+            dn1 = ['up'] * L
+            dn1[min(1, L - 1)] = 'down'
+            a = MPS.from_product_state(sites, up, bc=bc, unit_cell_width=L)
+            a.apply_local_op(min(1, L - 1), 'Sm')                 # same state as `b`, total charge carried by B.qtotal
+            b = MPS.from_product_state(sites, dn1, bc=bc, unit_cell_width=L)
+            c = MPS.from_product_state(sites, up, bc=bc, unit_cell_width=L)   # another charge sector
+            d = psi.copy()
+            d.gauge_total_charge()
+            e = psi.copy()
+            e.apply_local_op(0, 'Sp' if state[0] == 'down' else 'Sm')
+            pairs = [('Sm-vs-direct', a, b), ('sectors', b, c), ('gauged', psi, d), ('charged-op', psi, e), ('charged-op2', e, a)]
+            for nm, x in (('a', a), ('b', b), ('c', c), ('d', d), ('e', e)):
+                add_s('pair.' + nm, x)
+            for tag, x, y in rng.sample(pairs, 3):
+                pair_functions(x, y, tag)
+            if L >= 3:
+                sa, sb = a.extract_segment(1, L - 1), b.extract_segment(1, L - 1)
+                add_s('pair.seg_a', sa)
+                add_s('pair.seg_b', sb)
+                pair_functions(sa, sb, 'segments')
+        except Exception:
+            if not tenpy_error():
+                raise
+            ops_done.append('net.rejected.pairs')
+    elif conserve is not None:
+        try:
+            sa = psi.extract_segment(0, L - 1)
+            sb = psi.copy()
+            sb.apply_local_op(0, 'Sp' if state[0] == 'down' else 'Sm')
+            sb = sb.extract_segment(0, L - 1)
+            add_s('pair.seg_a', sa)
+            add_s('pair.seg_b', sb)
+            pair_functions(sa, sb, 'segments.infinite')
+        except Exception:
+            if not tenpy_error():
+                raise
+            ops_done.append('net.rejected.pairs')
 
     # ---------------- environments hold references to psi / H: nothing they do may change them
     try:
